@@ -46,7 +46,7 @@ def gates(tier):
         "min_decided": {a: 150 * k for a in APIS[:4]} | {"cfg.materialize(n)": 20 * k},
         "shapes": {c: 3 * k for c in ["eps_rule", "nullable_cycle", "unary_cycle", "left_recursive", "duplicate_rule",
                                       "start_on_rhs", "finitely_ambiguous", "sr:Poly", "sr:Q", "sr:Boolean", "sr:MaxPlus",
-                                      "sr:Log", "sr:Real", "sr:MaxTimes", "long-member-strings"]},
+                                      "sr:Log", "sr:Real", "sr:MaxTimes", "long-member-strings", "negative-weights"]},
         # no gate on tie events: on the repaired tree agenda priorities are injective (0 ties observed);
         # the tie-break policies only matter once a change makes priorities collide
         "min_events": {"heap.pop": 1000},
@@ -66,6 +66,9 @@ def gen_case(rng, spec):
         R = rng.choice(["Float", "Boolean", "MaxTimes", "Real"])
     if R == "Q" and "nullable_cycle" in cls:
         R = "Float"
+    if R in ("Float", "Real", "Q") and rng.random() < 0.2:
+        # a field: rule weights may be negative (the bound on sum |w| keeps every sum absolutely convergent)
+        g = dict(g, rules=[[(-w if rng.random() < 0.35 else w), h, b] for w, h, b in g["rules"]])
     maxlen = spec.get("maxlen", 4 if spec.get("tier") == "quick" else 5)
     if len(g["V"]) >= 3:
         maxlen -= 1
@@ -88,6 +91,7 @@ def run_case(case, ctx):
     from rv.ref import cfgref
 
     g0, R = case["g"], case["R"]
+    signed = any(w < 0 for w, _, _ in g0["rules"])
     an = GG.analyse(g0)
     cls = an["classes"]
     g = g0
@@ -119,7 +123,7 @@ def run_case(case, ctx):
     members = [x for x in strings if not O.isz(want[x])]
     fp = codec.fingerprint(case)
     nontriv = bool({"eps_rule", "unary_rule", "recursive"} & set(cls)) and 0 < len(members) < len(strings)
-    ctx.case(fp, nontriv, list(cls) + [f"sr:{R}"])
+    ctx.case(fp, nontriv, list(cls) + [f"sr:{R}"] + (["negative-weights"] if signed else []))
     ctx.sample({"case": case, "classes": cls, "n_strings": len(strings), "n_members": len(members)})
 
     ok, cfg = ctx.call("cfg(xs)", case, lib.build_cfg, g, R)
@@ -129,7 +133,13 @@ def run_case(case, ctx):
 
     def judge(api, x, have, extra=None):
         w = want[x]
-        if O.isz(w):
+        if O.isz(w) and signed:
+            # with negative weights a member's derivations may cancel: zero only up to rounding
+            from rv.core import close2
+
+            good = lib.is_zero_value(R, have) or close2(lib.have_value(R, have), 0, 0, 1e-12)
+            mech = f"{api}/non-member-not-zero" + ("/empty-string" if len(x) == 0 else "")
+        elif O.isz(w):
             good = lib.is_zero_value(R, have)  # non-members get exactly the semiring zero
             mech = f"{api}/non-member-not-zero" + ("/empty-string" if len(x) == 0 else "")
         else:
@@ -192,6 +202,10 @@ def run_case(case, ctx):
             continue
         exp = {x for x in members if len(x) <= n}  # (long sampled strings are longer than n)
         got = {tuple(k) for k, v in tab.items() if not lib.is_zero_value(R, v)}
+        if signed:  # derivations may cancel up to rounding: a residue of 1e-17 is not a listed string
+            from rv.core import close2 as _c2
+
+            got = {k for k in got if not _c2(lib.have_value(R, tab[k]), 0, 0, 1e-12)} | (got & exp)
         bad_keys = [k for k in tab if len(k) > n]
         good = got == exp and not bad_keys and all(
             lib.same(R, tab[x], want[x], exact=exact, tol=tol) for x in exp
